@@ -235,7 +235,7 @@ func nthString(alpha []string, length, i int) string {
 }
 
 func runC06(r *core.Run) {
-	r.Rule("(a) exhaustive: every string '/'+s with |s|<=L-1 over the 13-symbol character alphabet {/ ? { } : , blank a * [ tab ^ $} and every string not starting with '/' up to length 4; every '/'+t over a 14-token alphabet (/ ? { } : , blank a ** capture /[0-9]+/ 'x: ' {x} b.c) up to K tokens; (b) random derivations of the grammar rendered with random blanks, then 0-2 byte edits; (c) arbitrary byte strings incl. NUL/non-UTF-8 and very long inputs. Oracle: independent recursive-descent recogniser/parser of the documented token-level EBNF with pinned terminal classes; fixpoint of the canonical rendering. non-trivial = distinct accepted strings plus distinct rejected strings one edit away from an accepted one")
+	r.Rule("(a) exhaustive: every string '/'+s with |s|<=L-1 over the 13-symbol character alphabet {/ ? { } : , blank a * [ tab ^ $} and every string not starting with '/' up to length 4; every '/'+t over a 14-token alphabet (/ ? { } : , blank a ** capture /[0-9]+/ 'x: ' {x} b.c) up to K tokens; (b) random derivations of the grammar rendered with random blanks, then 0-2 byte edits; (c) arbitrary byte strings incl. NUL/non-UTF-8 and very long inputs; (d) every BMP code point inserted at six grammar positions. Oracle: independent recursive-descent recogniser/parser of the documented token-level EBNF with pinned terminal classes; fixpoint of the canonical rendering. non-trivial = distinct accepted strings plus distinct rejected strings one edit away from an accepted one")
 	r.Assume("terminal classes ident/regex are pinned to the lexer's classes at design time (README's first BNF drifted, see DESIGN §6)")
 	c06Canaries(r)
 
@@ -341,6 +341,30 @@ func runC06(r *core.Run) {
 		}
 		judgeParse(w, p, s, "bytes", nil)
 	})
+	// (d) every code point of the Basic Multilingual Plane (and a few beyond) at six positions: segment literal,
+	// bind name, parameter name, literal value, regex value, between elements. The grammar is ASCII-only, so
+	// e.g. Unicode case folding in a token class must not widen it.
+	templates := []string{"/%s", "/a%sb", "/{%s}", "/{%s: x}", "/{x: %s}", "/{x: /%s/}"}
+	const cpBlock = 1024
+	totalCP := 0x10000 + 64
+	r.Parallel("codepoints", (totalCP+cpBlock-1)/cpBlock, func(w *core.W, _ *rand.Rand, bi int) {
+		p := parserOf(w)
+		for cp := bi * cpBlock; cp < (bi+1)*cpBlock && cp < totalCP; cp++ {
+			r := rune(cp)
+			if cp >= 0x10000 {
+				r = rune(0x1F600 + cp - 0x10000)
+			}
+			if r >= 0xD800 && r <= 0xDFFF {
+				continue
+			}
+			for _, t := range templates {
+				w.Count("codepoint-insertions")
+				if !judgeParse(w, p, fmt.Sprintf(t, string(r)), "codepoint", nil) {
+					return
+				}
+			}
+		}
+	})
 	// long inputs (few, fixed)
 	longs := []string{
 		strings.Repeat("/a", 200000),
@@ -362,7 +386,8 @@ func runC06(r *core.Run) {
 	})
 
 	r.Gate("distinct accepted strings", r.Counter("accepted"), 2000)
-	for _, k := range []string{"alt:ident", "alt:{ident}", "alt:parameter-list", "alt:parameter-list>1", "alt:literal-value", "alt:regex-value", "alt:optional", "alt:empty-segment", "accepted-noncanonical-input", "rejected-one-edit-from-accepted", "accepted:exhaustive-chars", "accepted:exhaustive-tokens", "accepted:derivation", "long-inputs"} {
+	r.GateCounter("codepoint-insertions", 6*63000)
+	for _, k := range []string{"alt:ident", "alt:{ident}", "alt:parameter-list", "alt:parameter-list>1", "alt:literal-value", "alt:regex-value", "alt:optional", "alt:empty-segment", "accepted-noncanonical-input", "rejected-one-edit-from-accepted", "accepted:exhaustive-chars", "accepted:exhaustive-tokens", "accepted:derivation", "long-inputs", "accepted:codepoint"} {
 		r.GateCounter(k, 1)
 	}
 }
